@@ -684,6 +684,19 @@ def _run_join(rp, cex):
                       on=[dict(k="fn", op="eq", a=[dict(k="col", id=S_col_id(sl, 0)), dict(k="col", id=S_col_id(sr, 0))])])
             moves.append(jm)
             joined = R.apply_move(jm, heap, colmap)
+            if cex.get("how2"):
+                at = "join2"
+                s3 = rp.name_to_src[cex["third"]]
+                t3 = rp.B.table(bk, s3)
+                heap.append(joined)
+                heap.append(t3)
+                for ci, (n, _) in enumerate(rp.B.srcs[s3]["cols"]):
+                    colmap[S_col_id(s3, ci)] = t3[n]
+                a3 = [ci for ci, (n, _) in enumerate(rp.B.srcs[s3]["cols"]) if n == "a"][0]
+                jm2 = dict(v="join", i=len(heap) - 1, j=len(heap), how=cex["how2"], suffix="_s",
+                           on=[dict(k="fn", op="eq", a=[dict(k="col", id=S_col_id(sl, 0)), dict(k="col", id=S_col_id(s3, a3))])])
+                moves.append(jm2)
+                joined = R.apply_move(jm2, heap, colmap)
             at = "export"
             res[bk] = joined >> R.export(R.pdt.Polars())
         except Exception as e:  # noqa: BLE001
@@ -719,7 +732,7 @@ def phase_flatjoin(ctx, phase):
     for (ls, rs) in phase.get("pairs", [(1, 2), (6, 2)]):
         for emit_all in (False, True):
             d = tlc.prepare(f"{ctx.prop}-flatjoin-{ls}-{rs}-{int(emit_all)}-{os.getpid()}", ctx.seed)
-            tlc.write_model(d, "MC_SqlFlatJoin", dict(MaxPre=phase.get("pre", 2), LeftSrc=ls, RightSrc=rs, EmitAll=emit_all), {}, view="View")
+            tlc.write_model(d, "MC_SqlFlatJoin", dict(MaxPre=phase.get("pre", 2), LeftSrc=ls, RightSrc=rs, ThirdSrc=phase.get("third", 3), EmitAll=emit_all), {}, view="View")
             res = tlc.run(d, workers=8, timeout=phase.get("timeout", 600), on_json=(decided if emit_all else found).append)
             states += res["states"]
             distinct += res["distinct"]
